@@ -1515,3 +1515,23 @@ func (m *modref) describe(fn *ssa.Function) string {
 	sort.Strings(parts)
 	return strings.Join(parts, "; ")
 }
+
+// writeKinds: the primitive kinds of write (store, mapupdate, append, ...) through which fn may
+// modify memory belonging to parameter idx, found by following the witness origins.
+func (m *modref) writeKinds(fn *ssa.Function, idx int) map[string]bool {
+	out := map[string]bool{}
+	s := m.sums[topOf(fn)]
+	if s == nil {
+		return out
+	}
+	for k, e := range s.writes {
+		if k.Kind == okParam && k.Idx == idx {
+			kind := e.Kind
+			if e.Origin != "" {
+				kind = strings.SplitN(e.Origin, " ", 2)[0]
+			}
+			out[kind] = true
+		}
+	}
+	return out
+}
